@@ -102,6 +102,19 @@ CHECKS = {
         note="Covering set of addresses/ports, not all 2^32; port 0 (PORT_LOOKUP NONE) is read as 'unspecified'.",
         design_ref="DESIGN.md §4 C07",
     ),
+    "C17": dict(
+        technique="explicit-state BFS over real clients + database server + backup server (switched and routed); lock-step reference database model with symbolic connection handles",
+        text="Two clients, a password-protected database service with max_sessions 1/2, its FTP client and a backup FTP server on real "
+             "networks; BFS over connect (right/wrong/no password), application execute, SELECT/INSERT/DELETE/ENCRYPT/garbage on the k-th "
+             "issued, a closed and a forged connection id, disconnect, client uninstall, service stop/start/pause/resume/restart/fix, "
+             "backup, restore, file repair, node power, NIC/ACL path blocks and ticks. A reference model of issued handles, file health "
+             "and backup health is stepped in lock-step: a connection opens only for the right password on a RUNNING service on an ON "
+             "node below capacity with the path open; queries run only on issued, unclosed connections; DELETE => COMPROMISED, ENCRYPT => "
+             "CORRUPT; SELECT of compromised data fails; restore of a healthy backup => GOOD; blocked/stopped/off => nothing succeeds and "
+             "server state is unchanged; server-side connections and file health equal the model after every transition.",
+        note="Only the 'only if' directions of the statement are judged (a refused permitted connect is not a violation).",
+        design_ref="DESIGN.md §4 C17",
+    ),
     "C18": dict(
         technique="explicit-state BFS over real networks with tight link bandwidths; monitor on Link/AirSpace admission and transmit; accounting invariants on every transmission and state",
         text="Switched, routed and wireless topologies built through the Python API with link bandwidth / channel capacity of 1, 1.5, 2.5, "
@@ -112,6 +125,21 @@ CHECKS = {
              "pre_timestep, describe_state loads equal the real ones.",
         note="Seams fix frame sizes (counter-based secrets, fixed clock). 'Carried' = frames the receiving interface accepted or all frames put on an up link (both conventions accepted).",
         design_ref="DESIGN.md §4 C18",
+    ),
+    "C19": dict(
+        technique="choice-point seam on every RNG draw of the scripted agents: complete RNG-tree enumeration per setting combination (periodic agents), sampler seam (probabilistic agent), deviation-bounded enumeration on real UC7 environments (threat actors)",
+        text="Every random draw of a scripted agent (random.randint/choice in the agent modules, science.random, the probabilistic agent's "
+             "generator) is answered by the harness and all answers are enumerated, so results hold for every seed. Periodic agents "
+             "(periodic-agent, red-database-corrupting-agent): product of start step/variance, frequency/variance, max executions and "
+             "start-node lists x the complete choice tree over a 10-12 step horizon on a real PrimaiteGame (thorough: x one blue "
+             "interference): first action inside the start window, gaps within frequency +- variance, at most max executions, one "
+             "configured start node, only the configured action. Probabilistic agent: probability vector handed to the sampler is "
+             "index-aligned with the action map for every key order; the action is the sampled index's entry. TAP001/TAP003 on the "
+             "shipped UC7 scenarios with probabilities 0.5, variance 1 and both repeat settings: all executions with <=k non-default RNG "
+             "answers / blue interference actions; kill-chain stage sampled after every step must move in order without skipping, fail "
+             "only when stage repetition is off, restart only when repeat_kill_chain is set, and respect start and minimum gap.",
+        note="numpy never returning a p=0 index is trusted; threat-actor upper gap bounds are not checked.",
+        design_ref="DESIGN.md §4 C19",
     ),
     "C20": dict(
         technique="complete enumeration of shipped scenarios (every schedule episode) and the generated family: independent inventory from the dict vs built object graph; trajectory digests of key-permuted / re-serialised copies on real environments",
